@@ -63,7 +63,9 @@ def run_tlc(module, cfg_text, workers=16, timeout=1800, env=None, simulate=None,
         cfg = os.path.join(wd, module + ".cfg")
         with open(cfg, "w") as fh:
             fh.write(cfg_text)
-        cmd = ["java", "-Xss64m", "-XX:+UseParallelGC", "-XX:ParallelGCThreads=%d" % (gcthreads or max(2, min(8, workers))), "-Xmx" + heap, "-cp", JAR, "tlc2.TLC",
+        # (TLC unpacks its standard modules into java.io.tmpdir and leaves them there: keep that inside the run's directory)
+        os.makedirs(os.path.join(wd, "jtmp"), exist_ok=True)
+        cmd = ["java", "-Djava.io.tmpdir=" + os.path.join(wd, "jtmp"), "-Xss64m", "-XX:+UseParallelGC", "-XX:ParallelGCThreads=%d" % (gcthreads or max(2, min(8, workers))), "-Xmx" + heap, "-cp", JAR, "tlc2.TLC",
                "-workers", str(workers), "-metadir", os.path.join(wd, "states"), "-noGenerateSpecTE",
                "-config", cfg]
         if coverage:
